@@ -326,7 +326,8 @@ pub fn expr_program(rng: &mut Rng, depth: u32, mutate: bool) -> (ExprProgram, Sc
         let sized = |w: u8| GExpr::Const(1, W::Bits(w), 3);
         e = match if pick >= 37 { pick - 31 } else if pick >= 34 { 9 } else { pick % 6 } {
             // arms of different widths, the default right after the first disagreement, and one more arm after it
-            9 => GExpr::Mux(vec![(cond(rng), sized(3)), (cond(rng), sized(5)), (one(), sized(5)), (cond(rng), sized(5))]),
+            9 => { let a = *rng.pick(&[3u8, 64, 127, 128][..]); let b = *rng.pick(&[5u8, 64, 128, 1][..]); let b = if a == b { 7 } else { b };
+                   GExpr::Mux(vec![(cond(rng), sized(a)), (cond(rng), sized(b)), (one(), sized(b)), (cond(rng), sized(b))]) },
             6 => GExpr::Mux(vec![(odd_cond(), e)]),                                             // really no default
             7 => GExpr::Mux(vec![(odd_cond(), e), (one(), other)]),                             // really one default, last
             8 => GExpr::Mux(vec![(GExpr::Bin("==", Box::new(odd_cond()), Box::new(GExpr::Const(0, W::Unl, 0))), e)]),  // really a default
